@@ -25,7 +25,8 @@ LEVEL = "translation_validation"
 MOD = "pv.props.c07"
 
 VARIANTS = ["all_stored", "all_subst", "all_inlined", "alternate", "random0", "random1", "random2", "named", "user_tags",
-            "stored_reductions", "subst_in_reduction", "materialize_with_mpms", "stored_output_copy", "tagged_inputs", "assume_nonneg"]
+            "stored_reductions", "subst_in_reduction", "materialize_with_mpms", "stored_output_copy", "tagged_inputs", "assume_nonneg", "same_prefix_stored",
+            "named_then_prefix", "prefix_subst"]
 SYM_VARIANTS = ["prefix_sizeparam_stored", "prefix_sizeparam_subst", "all_stored", "alternate"]
 
 
@@ -77,6 +78,8 @@ def tagger(variant: str, seed: int, nonneg=()):
             def g(n):
                 if isinstance(n, pt.array.InputArgumentBase) and not isinstance(n, pt.array.SizeParam):
                     r = n.tagged(ImplStored()).tagged(FooTag())
+                    if isinstance(n, pt.array.DataWrapper):
+                        r = r.tagged(PrefixNamed("dwp"))         # every wrapped array asks for the same name prefix
                     return r.with_tagged_axis(0, BazAxisTag()) if r.ndim else r
                 return n
             return pt.transform.map_and_copy(dag, g)
@@ -102,6 +105,16 @@ def tagger(variant: str, seed: int, nonneg=()):
             elif variant == "named":
                 choice[id(n)] = [ImplStored(), Named(f"nm_{i}")] if i % 2 == 0 and id(n) not in outs else \
                     [PrefixNamed("tmpx")] if i % 3 == 0 else []
+            elif variant == "same_prefix_stored":
+                # every temporary asks for the same name prefix
+                choice[id(n)] = [ImplStored(), PrefixNamed("tmpx")] if id(n) not in outs else []
+            elif variant == "named_then_prefix":
+                # one temporary takes the exact name the others' prefix would generate first
+                choice[id(n)] = ([ImplStored(), Named("dup")] if i == 0 else [ImplStored(), PrefixNamed("dup")]) \
+                    if id(n) not in outs else []
+            elif variant == "prefix_subst":
+                choice[id(n)] = ([ImplSubstitution(), Named("rule")] if i == 0 else [ImplSubstitution(), PrefixNamed("rule")]) \
+                    if id(n) not in outs else []
             elif variant == "user_tags":
                 choice[id(n)] = [FooTag(), BarTag()] if i % 2 else [FooTag()]
             elif variant == "stored_reductions":
@@ -146,6 +159,9 @@ def tagged_job(prog: str, variant: str, seed: int = 0) -> JobOut:
         G = generate(P, transform_dag=tagger(variant, seed, P.nonneg))
     except Exception as e:  # noqa: BLE001
         import traceback
+        if isinstance(e, ValueError) and "Cannot assign the name" in str(e):
+            # documented: a Named tag yields exactly that name or an error (the name was handed out before)
+            return JobOut(declined=f"documented refusal: {str(e)[:80]}")
         return JobOut(sides=[Side(f"{pre}/tagged-variant-generates", False,
                                   f"{type(e).__name__}: {e}\n{traceback.format_exc(limit=6)}")])
     sides = [Side(f"{pre}/kernel-structure", not G.model.structural_problems, G.model.structural_problems[:5])]
